@@ -198,8 +198,22 @@ ReplacePlan(from, to) ==
 Stamp(recs, n) == [i \in 1..Len(recs) |->
                     [off |-> n + i - 1, ep |-> recs[i].ep, val |-> recs[i].val, key |-> recs[i].key]]
 
-\* Append(msgs) (all messages of a batch carry the same leader epoch):
-\* roll if the active segment is full, write log, write index, assign epoch
+\* commitLog.append: every message whose epoch exceeds the last one seen starts
+\* that epoch at its offset - one checkpoint flush per new epoch
+RECURSIVE EpochPlan(_, _, _)
+EpochPlan(c, recs, lastE) ==
+  IF recs = <<>> THEN <<>>
+  ELSE LET r == Head(recs) IN
+       IF r.ep > lastE
+       THEN (IF AssignOK(c, r.ep, r.off)
+             THEN <<[i |-> "mep", v |-> Assign(c, r.ep, r.off)], CP("epoch.before_flush"), [i |-> "wep"]>>
+             ELSE <<>>)
+            \o EpochPlan(Assign(c, r.ep, r.off), Tail(recs), r.ep)
+       ELSE EpochPlan(c, Tail(recs), lastE)
+
+\* Append(msgs) / AppendMessageSet(bytes) (replicated path: the batch may span
+\* several leader epochs): roll if the active segment is full, write the whole
+\* batch to the log, write its index entries, assign the new epochs
 PlanAppend(f, m, recs) ==
   LET segs == m.segs
       act == Last(segs)
@@ -216,10 +230,7 @@ PlanAppend(f, m, recs) ==
       p0 == IF full THEN 0 ELSE Len(Get(f.lf, ak))
       act3 == [act2 EXCEPT !.first = IF @ = -1 THEN st[1].off ELSE @, !.last = Last(st).off]
       segs3 == [segs2 EXCEPT ![Len(segs2)] = act3]
-      assign == AssignOK(m.ep, st[1].ep, n)
-      epochPlan == IF assign
-                   THEN <<[i |-> "mep", v |-> Assign(m.ep, st[1].ep, n)], CP("epoch.before_flush"), [i |-> "wep"]>>
-                   ELSE <<>>
+      epochPlan == EpochPlan(m.ep, st, LatestEpoch(m.ep))
       writePlan == <<[i |-> "wlog", k |-> k2, recs |-> st], [i |-> "msegs", v |-> segs3],
                      CP("append.after_log_write"), [i |-> "widx", k |-> k2, ents |-> EntsOf(st, p0)]>>
   IN IF full /\ Has(f.lf, nk) THEN <<[i |-> "fail", err |-> "segment_exists_loop"]>>
@@ -346,6 +357,7 @@ PlanReopen == <<CP("hw.before_checkpoint"), [i |-> "whw"], [i |-> "reopen"]>>
 
 Plan(f, m, op) ==
   CASE op.a = "Append" -> PlanAppend(f, m, op.recs)
+    [] op.a = "AppendSet" -> PlanAppend(f, m, op.recs)
     [] op.a = "SetHW" -> PlanSetHW(m, op.h)
     [] op.a = "Checkpoint" -> PlanCheckpoint
     [] op.a = "NewLeaderEpoch" -> PlanNewLeaderEpoch(m, op.e)
@@ -507,7 +519,7 @@ Removable(op, pre, lastBase) ==
     [] op.a = "Clean" -> {r \in RangeOf(pre) : r.off < lastBase}
     [] OTHER -> {}
 Addable(op, nw) ==
-  IF op.a = "Append" THEN RangeOf(Stamp(op.recs, nw + 1)) ELSE {}
+  IF op.a \in {"Append", "AppendSet"} THEN RangeOf(Stamp(op.recs, nw + 1)) ELSE {}
 
 \* completed appends survive, unmodified, at their offsets
 C05_Durable(op, pre, lastBase, sc) ==
@@ -522,7 +534,7 @@ IsSubSeq(a, b) == \* a is b with some elements removed
   /\ RangeOf(a) \subseteq RangeOf(b) /\ Len(a) = Cardinality(RangeOf(a))
   /\ \A i, j \in 1..Len(a) : i < j => a[i].off < a[j].off
 P_Op(op, pre, nw, lastBase, hwPre, o2, sc, hwPost) ==
-  CASE op.a = "Append" ->
+  CASE op.a \in {"Append", "AppendSet"} ->
          /\ o2.err = ""
          /\ o2.ret = [i \in 1..Len(op.recs) |-> nw + i]
          /\ sc = pre \o Stamp(op.recs, nw + 1)
